@@ -343,11 +343,11 @@ class Engine:
                 rhs = m.group(2)
                 if root in eligible and m.group(1) == root:
                     continue            # handled field-wise through field_ops
-                cm = re.match(r"([^=].*?)\((.*)\) -> (?:\[return: (bb\d+), unwind[^\]]*\]|unwind .*)$", rhs)
-                if cm and self.looks_like_call(s):
-                    callee = cm.group(1).strip()
+                pc_ = parse_call(s) if self.looks_like_call(s) else None
+                if pc_:
+                    callee = pc_[1].strip()
                     if self.MODELLED.search(callee) or (extra_modelled and re.search(extra_modelled, callee)):
-                        deps.setdefault(root, set()).update(mentions(cm.group(2)))
+                        deps.setdefault(root, set()).update(mentions(pc_[2]))
                     else:
                         deps.setdefault(root, set())
                     continue
@@ -814,9 +814,9 @@ class Engine:
                     out.append((tgt, s2))
                 return out
             # call terminators
-            cm = re.match(r"(?:(.+?) = )?([^=].*?)\((.*)\) -> (?:\[return: (bb\d+), unwind[^\]]*\]|unwind .*|bb\d+)$", s)
-            if cm and self.looks_like_call(s):
-                dst, callee, args, nxt = cm.group(1), cm.group(2), cm.group(3), cm.group(4)
+            pc_ = parse_call(s) if self.looks_like_call(s) else None
+            if pc_:
+                dst, callee, args, nxt = pc_
                 return self.do_call(st, bb, site, s, dst, callee.strip(), split_top(args), nxt)
             m = re.match(r"discriminant\((.*)\) = (\d+)$", s)
             if m:
@@ -1241,6 +1241,54 @@ BINOPS = {"Add", "Sub", "Mul", "Div", "Rem", "AddWithOverflow", "SubWithOverflow
 UNOPS = {"Not", "Neg", "PtrMetadata"}
 
 
+class _CallMatch:
+    def __init__(self, dst, callee, args):
+        self._g = (None, dst, callee, args)
+
+    def group(self, i):
+        return self._g[i]
+
+
+def callm(stmt, need_dst=False):
+    """Match-like view of a MIR call statement: group(1) destination (or None), group(2) callee, group(3) arguments."""
+    if not re.search(r"\) -> (\[return: bb\d+, unwind|unwind |bb\d+$)", stmt) or stmt.startswith(("drop(", "assert(", "switchInt(")):
+        return None
+    pc_ = parse_call(stmt)
+    if not pc_:
+        return None
+    dst, callee, args, _ = pc_
+    if need_dst and (dst is None or not re.fullmatch(r"_\d+", dst)):
+        return None
+    return _CallMatch(dst, callee, args)
+
+
+def parse_call(s):
+    """`[dst = ]callee(args) -> [return: bbN, unwind ...]` -> (dst, callee, args, next).  The argument list is the
+    last balanced parenthesis group before the arrow (callee paths may themselves contain `()`)."""
+    m = re.match(r"(.*\)) -> (?:\[return: (bb\d+), unwind[^\]]*\]|unwind .*|bb\d+)$", s)
+    if not m:
+        return None
+    head, nxt = m.group(1), m.group(2)
+    depth = 0
+    i = len(head) - 1
+    while i >= 0:
+        if head[i] == ")":
+            depth += 1
+        elif head[i] == "(":
+            depth -= 1
+            if depth == 0:
+                break
+        i -= 1
+    if i <= 0:
+        return None
+    args = head[i + 1:-1]
+    pre = head[:i]
+    dm = re.match(r"((?:\(.*?\)|_\d+|\(\*_\d+\))) = (.*)$", pre)
+    if dm and not pre.startswith("<"):
+        return dm.group(1), dm.group(2), args, nxt
+    return None, pre, args, nxt
+
+
 def fit(v, ty):
     if z3.is_bv(v) and ty in INT_W and v.size() != INT_W[ty]:
         w = INT_W[ty]
@@ -1362,7 +1410,7 @@ def seeds_for(fn, assert_sites=True, call_pats=(), extra=()):
                 if m:
                     seeds |= set(re.findall(r"_\d+", m.group(2)))
             for cp in call_pats:
-                m = re.match(r"(?:(.+?) = )?([^=].*?)\((.*)\) -> ", s)
+                m = callm(s)
                 if m and re.search(cp, m.group(2)):
                     seeds |= set(re.findall(r"_\d+", m.group(3)))
     return seeds
